@@ -447,8 +447,10 @@ func (m *Manager) FlushMemTables() error {
 		tables := m.memTablePool.GetMemTables()
 		if len(tables) > 0 && tables[0].ApproximateSize() > 0 {
 			// In testing, we might want to force flush the active table too
-			// Create a new WAL file for future writes
-			if err := m.rotateWAL(); err != nil {
+			// Create a new WAL file for future writes. Rotate under the
+			// engine lock so that no write is in flight on the old WAL
+			// while it is switched and closed
+			if err := m.RotateWAL(); err != nil {
 				m.stats.TrackError("wal_rotate_error")
 				return fmt.Errorf("failed to rotate WAL: %w", err)
 			}
@@ -464,8 +466,8 @@ func (m *Manager) FlushMemTables() error {
 		return nil
 	}
 
-	// Create a new WAL file for future writes
-	if err := m.rotateWAL(); err != nil {
+	// Create a new WAL file for future writes (under the engine lock, see above)
+	if err := m.RotateWAL(); err != nil {
 		m.stats.TrackError("wal_rotate_error")
 		return fmt.Errorf("failed to rotate WAL: %w", err)
 	}
